@@ -430,19 +430,24 @@ fn c16_oracle(out: &mut Out, i: &Inp) -> Obs {
     if av != o.vs {
         out.oracle_fail("public-api-verify-differs-from-std-backend", &what("Signature::verify vs libsecp256k1", av.js(), o.vs.js()), i.js());
     }
-    // textbook expectation, where the generator knows it: a valid low-s signature recovers its key and verifies
+    // textbook expectation, where the generator knows it: a valid signature recovers its key on BOTH
+    // back-ends (k256 normalises a high s since fix 378a736); verify accepts it iff s is low
     if let Some(q) = i.expect {
-        if !is_high_s(&i.sig) {
-            if o.rs != Rec::Key(q) || o.rk != Rec::Key(q) {
-                out.oracle_fail("valid-low-s-signature-not-recovered", &what("valid low-s signature does not recover the signer", o.rk.js(), o.rs.js()), i.js());
-            }
-            if o.vs != Ver::Ok || o.vk != Ver::Ok {
-                out.oracle_fail("valid-low-s-signature-not-verified", &what("valid low-s signature does not verify", o.vk.js(), o.vs.js()), i.js());
-            }
-        } else if let Rec::Key(k) = o.rs {
-            if k != q {
-                out.oracle_fail("high-s-recovers-wrong-key", &what("valid high-s signature recovers another key", o.rk.js(), o.rs.js()), i.js());
-            }
+        if o.rs != Rec::Key(q) || o.rk != Rec::Key(q) {
+            let class = if !is_high_s(&i.sig) {
+                "valid-low-s-signature-not-recovered"
+            } else if o.rk == Rec::Err && o.rs == Rec::Key(q) {
+                "k256-rejects-high-s-recover"
+            } else {
+                "high-s-recovers-wrong-key"
+            };
+            out.oracle_fail(class, &what("valid signature does not recover the signer on both back-ends", o.rk.js(), o.rs.js()), i.js());
+        }
+        if !is_high_s(&i.sig) && (o.vs != Ver::Ok || o.vk != Ver::Ok) {
+            out.oracle_fail("valid-low-s-signature-not-verified", &what("valid low-s signature does not verify", o.vk.js(), o.vs.js()), i.js());
+        }
+        if is_high_s(&i.sig) && (o.vs == Ver::Ok || o.vk == Ver::Ok) {
+            out.oracle_fail("high-s-signature-verifies", &what("non-normalised (high-s) signature is accepted by verify", o.vk.js(), o.vs.js()), i.js());
         }
     }
     o
@@ -517,8 +522,8 @@ fn lib_would_compute_core(sig: &[u8; 64], n: U256, lift: fn(U256) -> bool) -> bo
 }
 fn erec_case(i: &Inp, o: &Obs) -> MCase {
     let core = lib_would_compute_core(&i.sig, n_k1(), liftable_k1);
-    // k256's re-verification is skipped by the model when s is high (ver_s_ok fails first)
-    let weight = if !core { 1 } else if is_high_s(&i.sig) { 11 } else { 22 };
+    // high s: the k256 model recovers from the normalised signature (second candidate key + re-verification)
+    let weight = if !core { 1 } else if is_high_s(&i.sig) { 33 } else { 22 };
     MCase {
         case: Case {
             coq: format!("(ERec {} {} {} {})", coq_bytes(&i.sig), coq_bytes(&i.msg), o.rk.coq(), o.rs.coq()),
@@ -598,7 +603,7 @@ fn run_c16(args: &Args, out: &mut Out) {
     let mut rng = Rng::new(args.seed);
     let inputs = gen_inputs(&mut rng, args);
     // quick: ~16 shards x ~25 s of vm_compute; thorough: ~16 x 150 s
-    let mut pick = Picker::new(if args.thorough() { 2400 } else { 200 }, if args.thorough() { 6 } else { 1 });
+    let mut pick = Picker::new(if args.thorough() { 2400 } else { 280 }, if args.thorough() { 6 } else { 1 });
     // the F5 witness first, so it is always model-checked
     let mut all: Vec<Inp> = vec![];
     let w = f5_witness();
@@ -655,7 +660,8 @@ fn run_c16(args: &Args, out: &mut Out) {
     }
 }
 
-/// F5: s = n/2 + 1 on r = Gx (parity even), message 0x00..01
+/// F5 corpus case (the back-ends differed here before fix 378a736; must agree now):
+/// s = n/2 + 1 on r = Gx (parity even), message 0x00..01
 fn f5_witness() -> Inp {
     let n = n_k1();
     let s = (n >> 1) + U256::one();
